@@ -425,12 +425,32 @@ def setup():
     return 0 if ok else 2
 
 
+def parse_seed(s):
+    """Any VERIF_SEED value is accepted: decimal/0x integers in [0, 2^31-1) are used
+    as they are (so recorded seeds replay), anything else (negative, huge, text) is
+    folded deterministically into that range - a malformed seed must never turn into
+    a failing check."""
+    s = (s or "").strip()
+    if not s:
+        return 0
+    try:
+        v = int(s, 0)
+    except ValueError:
+        try:
+            v = int(s)
+        except ValueError:
+            import zlib
+            v = zlib.crc32(s.encode("utf-8", "replace")) | (1 << 40)
+    m = (1 << 31) - 1
+    return v if 0 <= v < m else abs(v) % m
+
+
 def main():
     a = sys.argv[1:]
     if not a:
         print(__doc__)
         return 2
-    seed = int(os.environ.get("VERIF_SEED", "0") or 0)
+    seed = parse_seed(os.environ.get("VERIF_SEED", ""))
     if a[0] == "setup":
         return setup()
     if a[0] == "check":
